@@ -306,12 +306,30 @@ def run_impl(binary, case_texts, ids, timeout=600):
     while pending and guard < len(ids) + 10:
         guard += 1
         text = ''.join(case_texts[i] for i in pending)
+        # a batch of thousands of cases takes seconds; a case that never returns (deadlock, endless loop) is
+        # recognised by the batch running out of time: what was printed before tells which case it was
+        tmo = min(timeout, 45 + 0.05 * len(pending))
         try:
-            rc, out, err = sh([binary], input=text, timeout=timeout, env=SAN_ENV)
-        except subprocess.TimeoutExpired:
-            # cannot attribute; mark first pending as hang
-            res[pending[0]] = ['HANG']
-            pending = pending[1:]
+            rc, out, err = sh([binary], input=text, timeout=tmo, env=SAN_ENV)
+        except subprocess.TimeoutExpired as te:
+            part = te.stdout or ''
+            if isinstance(part, bytes):
+                part = part.decode('utf-8', 'replace')
+            pcases, porder = parse_traces(part)
+            pdone = [c for c in porder if pcases[c] and pcases[c][-1] == 'end']
+            for c in pdone:
+                res[c] = pcases[c]
+            bad = next((c for c in pending if c not in pdone), None)
+            if bad is None:
+                break
+            res[bad] = pcases.get(bad, []) + ['HANG the call did not return within %d s' % int(tmo)]
+            pending = pending[pending.index(bad) + 1:]
+            hangs = sum(1 for v in res.values() if v and v[-1].startswith('HANG'))
+            if hangs >= 4:
+                # enough evidence; the remaining cases are not run (reported as such, never as agreement)
+                for c in pending:
+                    res[c] = ['NOT-RUN after %d hanging cases' % hangs]
+                break
             continue
         cases, order = parse_traces(out)
         done = [c for c in order if cases[c] and cases[c][-1] == 'end']
